@@ -83,8 +83,10 @@ def make_judges(ctx):
                 if ys.n_word != n:
                     if ev.exc is None:
                         ctx.violation('mismatch_accepted', '%s of %s with %s did not raise' % (ev.op, R.dtype_fxp(*x.fmt()), R.dtype_fxp(*ys.fmt())), ev)
-                    ctx.judged(('mismatch', op, x.signed, ys.signed), True, None)
+                    ctx.judged(('mismatch', op, x.signed, ys.signed, route), True, None)
                     ctx.floor_hit(('mismatch',))
+                    if route == 'numpy':
+                        ctx.floor_hit(('mismatch-numpy',))
                     return
                 ya = np.empty(len(ys.codes), dtype=object)
                 ya[:] = [k % m for k in ys.codes]
@@ -143,6 +145,8 @@ def make_judges(ctx):
         ctx.floor_hit((op, ykind.split('.')[0] if ykind not in ('-', 'masks') else ykind))
         if route == 'numpy':
             ctx.floor_hit(('numpy', op))
+        if yb is not None and tuple(xb.shape) != tuple(np.shape(xa)) and tuple(xb.shape) != tuple(np.shape(ya)):
+            ctx.floor_hit(('broadcast-table',))      # both operands had to be expanded (row against column)
         if any(arrk):
             ctx.floor_hit(('arrays', op, arrk))
             if n in (63, 64, 65) and arrk[0]:
@@ -153,7 +157,7 @@ def make_judges(ctx):
 
 
 def floors(tier):
-    return [('not', '-')] + [(op, yk) for op in ('and', 'or', 'xor') for yk in ('Fxp', '+mask', '-mask', 'masks')] + [('mismatch',)] + \
+    return [('not', '-')] + [(op, yk) for op in ('and', 'or', 'xor') for yk in ('Fxp', '+mask', '-mask', 'masks')] + [('mismatch',), ('mismatch-numpy',), ('broadcast-table',)] + \
            [('numpy', op) for op in ('and', 'or', 'xor', 'not')] + [('arrays', op, k) for op in ('and', 'or', 'xor') for k in ((True, True), (True, False), (False, True))] + [('arrays', 'not', (True, False))] + \
            [('wide-array', w_, sg) for w_ in (63, 64, 65) for sg in (True, False)]
 
@@ -258,11 +262,28 @@ def run_case(case, ctx):
         _try(lambda: np.bitwise_or(xarr, 1))
         _try(lambda: np.bitwise_xor(Fxp(lox, sx, w, nf, raw=True), Fxp(hiy, sy, w, nfy, raw=True)))
         _try(lambda: np.invert(xarr))
+        # a row against a column (same number of elements, different shapes: the result is the full table), a matrix against a row
+        kk = min(4, hix - lox + 1)
+        if kk >= 2:
+            row = Fxp(np.arange(lox, lox + kk), sx, w, nf, raw=True)
+            col = Fxp(np.array(ycodes[:kk]).reshape(kk, 1), sy, w, nfy, raw=True)
+            mat = Fxp(np.array((ycodes * 2)[:2 * kk]).reshape(2, kk), sy, w, nfy, raw=True)
+            for f_ in (lambda u, v: u & v, lambda u, v: u | v, lambda u, v: u ^ v):
+                _try(lambda: f_(row, col))
+                _try(lambda: f_(col, row))
+                _try(lambda: f_(row, np.array(ycodes[:kk]).reshape(kk, 1)))
+                _try(lambda: f_(mat, row))
+                _try(lambda: f_(row, mat))
+            _try(lambda: np.bitwise_and(row, col))
+            _try(lambda: np.bitwise_xor(col, row))
         # mismatched word lengths are rejected
         x = Fxp(hix, sx, w, nf, raw=True)
         for wz in (w + 1, w - 1, w + 7):
             if wz >= 1:
                 z = Fxp(1 if wz > 1 or not sy else 0, sy, wz, 0, raw=True)
+                _try(lambda: np.bitwise_and(x, z))
+                _try(lambda: np.bitwise_or(z, x))
+                _try(lambda: np.bitwise_xor(xarr, Fxp(np.zeros(hix - lox + 1), sy, wz, 0)))
                 _try(lambda: x & z)
                 _try(lambda: x | z)
                 _try(lambda: x ^ z)
